@@ -425,16 +425,17 @@ unsafe impl<T: RcObject + Send + Sync> Sync for Rc<T> {}
 
 impl<T: RcObject> Clone for Rc<T> {
     fn clone(&self) -> Self {
-        let rc = Self {
-            ptr: self.ptr,
-            _marker: PhantomData,
-        };
+        // Count first: if the count is refused (overflow), no handle must exist whose drop
+        // would release a share that was never taken.
         unsafe {
-            if let Some(cnt) = rc.ptr.as_raw().as_ref() {
+            if let Some(cnt) = self.ptr.as_raw().as_ref() {
                 cnt.increment_strong();
             }
         }
-        rc
+        Self {
+            ptr: self.ptr,
+            _marker: PhantomData,
+        }
     }
 }
 
@@ -788,13 +789,13 @@ impl<'g, T: RcObject> Snapshot<'g, T> {
     /// Creates an [`Rc`] pointer by incrementing the strong reference counter.
     #[inline]
     pub fn counted(self) -> Rc<T> {
-        let rc = Rc::from_raw(self.ptr);
+        // Count first, see `Rc::clone`.
         unsafe {
-            if let Some(cnt) = rc.ptr.as_raw().as_ref() {
+            if let Some(cnt) = self.ptr.as_raw().as_ref() {
                 cnt.increment_strong();
             }
         }
-        rc
+        Rc::from_raw(self.ptr)
     }
 
     /// Converts to `WeakSnapshot`. This does not touch the reference counter.
